@@ -76,4 +76,52 @@ func probe(args []string) error {
 	return nil
 }
 
-func init() { engine.RegisterDriver("sync-probe", probe) }
+// stress: vh drive sync-stress N - N fresh nodes; each gets confirm(1,2) then block 1 (stable moves to 1) and we look
+// whether the manager's stableBlockLoop ever sees the event (a development aid)
+func stress(args []string) error {
+	wd := newWorld("syncstress", 3)
+	defer wd.close()
+	rounds, _ := strconv.Atoi(args[0])
+	old := waitLimit
+	waitLimit = 8 * time.Second
+	defer func() { waitLimit = old }()
+	miss := 0
+	for i := 0; i < rounds; i++ {
+		n := startNut(wd.w, filepath.Join(wd.dir, fmt.Sprintf("nut%d", i)), 3, wd.blocks[3].Hash())
+		n.peer.push(p2p.ConfirmMsg, enc(wd.confirm(1, 2)))
+		n.fence()
+		n.peer.push(p2p.BlocksMsg, enc(types.Blocks{node.Copy(wd.blocks[1], nil)}))
+		ok := func() (ok bool) {
+			defer func() {
+				if r := recover(); r != nil {
+					ok = false
+				}
+			}()
+			n.r.wait("stable.received", func(evs []ev) bool {
+				return count(evs, 0, func(e ev) bool { return e.kind == "stable.received" }) >= 1
+			})
+			return true
+		}()
+		if !ok {
+			miss++
+			fmt.Printf("round %d: stable event never reached the manager; stable=%d cc=%d\n", i, n.bc.StableBlock().Height(), len(dumpConfirmCache(n.ccache)))
+			n.r.mu.Lock()
+			for _, e := range n.r.evs {
+				if e.kind != "read" && e.kind != "read.wait" {
+					fmt.Printf("   %s %s h=%d ok=%v code=%d\n", e.kind, e.caller, e.height, e.ok, e.code)
+				}
+			}
+			n.r.mu.Unlock()
+			// do not wait for it at stop
+			n.r.add(ev{kind: "stable.received"})
+		}
+		n.stop()
+	}
+	fmt.Printf("rounds=%d missed=%d\n", rounds, miss)
+	return nil
+}
+
+func init() {
+	engine.RegisterDriver("sync-probe", probe)
+	engine.RegisterDriver("sync-stress", stress)
+}
